@@ -639,7 +639,7 @@ def partitions(tier):
             parts.append({'name': f'passes2_{k}',
                           'fn': make_passes2(pairs[k:k + 60]),
                           'budget_s': bud})
-    for v in range(NFORMS):
+    for v in ((0, 1, 3, 5) if tier == 'quick' else range(NFORMS)):
         for plo in range(0, 32, 4):
             parts.append({'name': f'detect_{v}_{plo}',
                           'setup': _wrap_is_relevant,
